@@ -2,7 +2,7 @@
 # Runs every behaviour-preserving refactoring kept under /verif/neutral against every check (4 at a time); prints
 # the ones that raise an alarm. Exit 0 iff none does.
 cd /verif
-out=$(ls -d neutral/*/ | xargs -P 4 -n 1 tools/neutraleval.sh 2>&1 | sort)
+out=$(ls -d neutral/*/ | xargs -P ${NEUTRAL_JOBS:-4} -n 1 tools/neutraleval.sh 2>&1 | sort)
 echo "$out" | grep -v '"alarms":""'
 n=$(echo "$out" | grep -c '"alarms":""'); t=$(echo "$out" | wc -l)
 echo "silent on $n of $t behaviour-preserving refactorings"
